@@ -39,7 +39,8 @@ ErrMatches(se, ge) ==
 
 \* "" if the observed outcome g is the specified outcome s, else the reason
 Why(s, g, strict, pulls) ==
-  IF s.ok # g.ok THEN "verdict"
+  IF "ok" \notin DOMAIN g THEN "panic"                    \* the real parser panicked: data, not a tool error
+  ELSE IF s.ok # g.ok THEN "verdict"
   ELSE IF s.ok /\ s.v # g.v THEN "value"
   ELSE IF s.ok /\ s.cm # g.cm THEN "codemap"
   ELSE IF (~s.ok) /\ strict /\ ~ErrMatches(s.err, g.err) THEN "error"
